@@ -22,7 +22,7 @@ RULE = ("Each case creates 1-3 real sender PeerMemoers and one receiver on the f
 COMPONENTS = dict(real=["hio.core.memo.memoing.Memoer (rend, pick, verify, fuse, rx services)", "hio.core.udp.peermemoing.PeerMemoer", "hio.core.udp.udping.Peer", "pysodium Ed25519"],
                   stub=["datagram kernel (FakeDgram) and the delivery schedule", "uuid source"], model=["hiosim/models/memo.py"])
 ASSUMPTIONS = ["no loss in this check: every gram is delivered at least once (loss is C21/C22 territory)"]
-PROBES = ["signed_memo", "binary_headers", "zeroth_gram_delivered_last", "duplicate_after_completion", "interleaved_senders", "min_gram_size", "multibyte_split"]
+PROBES = ["layout_switched_after_construction", "signed_memo", "binary_headers", "zeroth_gram_delivered_last", "duplicate_after_completion", "interleaved_senders", "min_gram_size", "multibyte_split"]
 BOUNDS = dict(quick=dict(senders=3, memos=6, chars=400), thorough=dict(senders=3, memos=9, chars=400))
 TIERS = dict(quick=dict(cases=6000, wall=45.0), thorough=dict(cases=600000, wall=420.0))
 SIM_TIME_UNIT = "deliveries"
@@ -52,8 +52,24 @@ def run_case(tape, tier):
             if curt:
                 oz = 3 * oz // 4
             size = oz + tape.pick("size_extra", [1, 2, 3, 7, 16, 40, 100, 300])
-            pm = peermemoing.PeerMemoer(name="s%d" % s, ha=("127.0.0.1", 55010 + s), code=code, curt=curt, size=size,
-                                        vid=vid if signed else None, keep={vid: keyage} if signed else None)
+            late = tape.flag("late_config", 1, 4)
+            if late:
+                # built with the default layout and a requested gram size that may be below the final layout's minimum, then
+                # switched to the final code / header encoding through the property setters (which must re-clamp the size)
+                req = tape.pick("late_size", [1, 30, size, size])
+                pm = peermemoing.PeerMemoer(name="s%d" % s, ha=("127.0.0.1", 55010 + s), size=req,
+                                            vid=vid if signed else None, keep={vid: keyage} if signed else None)
+                if tape.flag("late_order", 1, 2):
+                    pm.curt = curt
+                    pm.code = code
+                else:
+                    pm.code = code
+                    pm.curt = curt
+                size = max(req, oz + 1)
+                res.probes["layout_switched_after_construction"] += 1
+            else:
+                pm = peermemoing.PeerMemoer(name="s%d" % s, ha=("127.0.0.1", 55010 + s), code=code, curt=curt, size=size,
+                                            vid=vid if signed else None, keep={vid: keyage} if signed else None)
             assert pm.reopen()
             recv_keep[vid] = keyage
             senders.append(dict(pm=pm, code=code, curt=curt, size=size, vid=vid if signed else None, signed=signed))
